@@ -66,6 +66,8 @@ type step struct {
 	P string `json:"p"`
 	A string `json:"a"`
 	F bool   `json:"f"` // this storage write fails
+	W bool   `json:"w"` // model: after this step the process waits for the per-client quota lock
+	G string `json:"g"` // model: waiter that is handed the quota lock in this step ("" = nobody)
 }
 
 type behaviour struct {
@@ -75,6 +77,7 @@ type behaviour struct {
 	Quota   int      `json:"quota"`   // max active mappings per client
 	Backend string   `json:"backend"` // "double" | "hybrid" (free-running only) | "nodes2"
 	Node2   []string `json:"node2"`   // backend nodes2: processes that call through node n2
+	SameAs  []string `json:"sameAs"`  // activators that submit with a1's listen client (double submit)
 	// free-running variant
 	Free   bool `json:"free,omitempty"`
 	Procs  int  `json:"procs,omitempty"`
@@ -96,6 +99,7 @@ type rig struct {
 	stores    []*doubles.Store // every store / tier double of the rig
 	nodes     map[string]*node
 	node2     map[string]bool
+	sameAs    map[string]bool
 	cancel    context.CancelFunc
 	expiresAt time.Time
 	pre       []string // ids of the pre-existing mappings
@@ -107,6 +111,14 @@ type rig struct {
 }
 
 func preID(a string) string { return "pmap_pre_" + a }
+
+// client: the listen client process p submits as.
+func (r *rig) client(p string) int64 {
+	if r.sameAs[p] {
+		return clientOf["a1"]
+	}
+	return clientOf[p]
+}
 
 func (r *rig) nodeOf(p string) string {
 	if r.node2[p] && r.nodes["n2"] != nil {
@@ -179,8 +191,11 @@ func (r *rig) addNode(ctx context.Context, name string, stor storage.Storage, qu
 	r.nodes[name] = n
 }
 
-func newRig(free bool, backend string, node2 []string, ttl time.Duration, pre []string, quota int) (*rig, error) {
-	r := &rig{s: sched.New(free), nodes: map[string]*node{}, node2: map[string]bool{}}
+func newRig(free bool, backend string, node2, sameAs []string, ttl time.Duration, pre []string, quota int) (*rig, error) {
+	r := &rig{s: sched.New(free), nodes: map[string]*node{}, node2: map[string]bool{}, sameAs: map[string]bool{}}
+	for _, p := range sameAs {
+		r.sameAs[p] = true
+	}
 	r.s.Watchdog = 2 * time.Second
 	ctx, cancel := context.WithCancel(context.Background())
 	r.cancel = cancel
@@ -297,8 +312,8 @@ type gate struct{ op, class, ident string }
 func (g gate) String() string { return g.op + " " + g.class + " " + g.ident }
 
 // gateOf maps a model step of process p to its storage call.
-func gateOf(p, a string) (gate, bool) {
-	listen := fmt.Sprint(clientOf[p])
+func (r *rig) gateOf(p, a string) (gate, bool) {
+	listen := fmt.Sprint(r.client(p))
 	target := fmt.Sprint(targetClient)
 	switch a {
 	case "Read", "RRead":
@@ -306,9 +321,11 @@ func gateOf(p, a string) (gate, bool) {
 	case "QList":
 		return gate{"GetList", "client_list", listen}, true
 	case "QGet":
-		return gate{"Get", "port_mapping", preID(p)}, true
+		return gate{"Get", "port_mapping", ""}, true // a pre-existing mapping or the same client's other one
 	case "Claim":
 		return gate{"SetNX", "claim", ""}, true
+	case "ClaimGet":
+		return gate{"Get", "claim", ""}, true
 	case "GenId":
 		return gate{"SetNX", "id_mark", ""}, true
 	case "CGet", "RbGet":
@@ -360,7 +377,7 @@ type callRes struct {
 
 func (r *rig) activate(p string) callRes {
 	svc := r.nodes[r.nodeOf(p)].svc
-	m, err := svc.ActivateConnectionCode(&services.ActivateConnectionCodeRequest{Code: codeStr, ListenClientID: clientOf[p], ListenAddress: "0.0.0.0:9" + p[1:] + "00"})
+	m, err := svc.ActivateConnectionCode(&services.ActivateConnectionCodeRequest{Code: codeStr, ListenClientID: r.client(p), ListenAddress: "0.0.0.0:9" + p[1:] + "00"})
 	if err != nil || m == nil {
 		return callRes{err: fmt.Sprint(err)}
 	}
@@ -378,7 +395,7 @@ func (r *rig) callEvent(p string) fw.Event {
 	if p == "r" {
 		return fw.Event{"ev": "Call", "p": p, "op": "Rev", "client": 0, "node": r.nodeOf(p)}
 	}
-	return fw.Event{"ev": "Call", "p": p, "op": "Act", "client": clientOf[p], "node": r.nodeOf(p)}
+	return fw.Event{"ev": "Call", "p": p, "op": "Act", "client": r.client(p), "node": r.nodeOf(p)}
 }
 
 func retEvent(p string, res callRes) fw.Event {
@@ -469,11 +486,12 @@ func drive(env *fw.Env, b fw.Behaviour) *fw.Trace {
 	if hasExpire {
 		ttl = expireTTL
 	}
-	r, err := newRig(false, beh.Backend, beh.Node2, ttl, beh.Pre, beh.Quota)
+	r, err := newRig(false, beh.Backend, beh.Node2, beh.SameAs, ttl, beh.Pre, beh.Quota)
 	if err != nil {
 		return &fw.Trace{Status: fw.DriverError, Note: err.Error()}
 	}
 	defer r.close()
+	wd := r.s.Watchdog
 	t := &fw.Trace{Status: fw.Realised}
 	t.Events = append(t.Events, r.codeEvent())
 	started := map[string]bool{}
@@ -493,9 +511,58 @@ func drive(env *fw.Env, b fw.Behaviour) *fw.Trace {
 		r.hits = nil
 		r.mu.Unlock()
 	}
-	unreal := func(format string, a ...any) *fw.Trace {
-		r.s.Drain(3 * time.Second)
-		return &fw.Trace{Status: fw.Unrealisable, Note: fmt.Sprintf(format, a...)}
+	// the deadline passed by the real clock although the schedule has not reached (or has no) Expire step:
+	// say so - an Expire event is sound whenever it is logged after the deadline
+	lateExpire := func() {
+		if hasExpire && !expired && time.Now().After(r.expiresAt) {
+			r.dropCodeKeys()
+			expired = true
+			t.Events = append(t.Events, fw.Event{"ev": "Expire"})
+		}
+	}
+	// finish: let every call still in flight run to completion free-running, record returns and the final
+	// store. Used at the end of a behaviour (a prefix of a run) and when the code left the model's schedule
+	// (status Diverged): either way it is a real execution and it is judged.
+	finish := func(status, note string) *fw.Trace {
+		lateExpire()
+		if !r.s.Drain(5 * time.Second) {
+			return &fw.Trace{Status: fw.DriverError, Note: "calls did not finish after drain (" + note + ")"}
+		}
+		flushFaults()
+		for _, p := range order {
+			if !returned[p] && r.s.Await(p) == sched.Done {
+				logRet(p)
+			}
+		}
+		lateExpire()
+		fe, err := r.finalEvent()
+		if err != nil {
+			return &fw.Trace{Status: fw.DriverError, Note: err.Error()}
+		}
+		t.Events = append(t.Events, fe)
+		t.Status, t.Note = status, note
+		return t
+	}
+	diverged := func(format string, a ...any) *fw.Trace { return finish(fw.Diverged, fmt.Sprintf(format, a...)) }
+	// after a step: the process is parked at its next storage call, has returned, or (w) waits for the quota lock
+	settle := func(i int, st step, ns string) (string, bool) {
+		switch {
+		case st.W && ns == sched.Blocked:
+		case st.W:
+			return fmt.Sprintf("step %d: %s is %s after %s, model expects it to wait for the quota lock", i, st.P, ns, st.A), false
+		case ns == sched.Done:
+			logRet(st.P)
+		case ns == sched.Parked:
+		default:
+			return fmt.Sprintf("step %d: %s is %s after %s", i, st.P, ns, st.A), false
+		}
+		if st.G != "" {
+			// the returning call released the quota lock: the waiter runs on to its next storage call
+			if !started[st.G] || r.s.Await(st.G) != sched.Parked {
+				return fmt.Sprintf("step %d: %s was not handed the quota lock after %s of %s", i, st.G, st.A, st.P), false
+			}
+		}
+		return "", true
 	}
 	for i, st := range beh.Steps {
 		switch {
@@ -528,22 +595,29 @@ func drive(env *fw.Env, b fw.Behaviour) *fw.Trace {
 				state = r.s.Start(p, func() any { return r.activate(p) })
 			}
 			if state != sched.Parked {
-				return unreal("step %d: call of %s did not park at its first storage call (%s)", i, p, state)
+				if state == sched.Done {
+					logRet(p)
+				}
+				return diverged("step %d: call of %s did not park at its first storage call (%s)", i, p, state)
 			}
 			continue
 		}
-		g, ok := gateOf(st.P, st.A)
+		g, ok := r.gateOf(st.P, st.A)
 		if !ok || !started[st.P] {
 			return &fw.Trace{Status: fw.DriverError, Note: fmt.Sprintf("step %d: unknown step %s of %s", i, st.A, st.P)}
 		}
 		stt, at := r.s.State(st.P)
 		if stt != sched.Parked || !g.matches(at) {
-			return unreal("step %d: %s is %s at %s %v, model expects %s (%s)", i, st.P, stt, at.Point, at.Info["key"], st.A, g)
+			return diverged("step %d: %s is %s at %s %v, model expects %s (%s)", i, st.P, stt, at.Point, at.Info["key"], st.A, g)
 		}
 		if st.F {
 			r.armed.Store(true)
 		}
+		if st.W {
+			r.s.Watchdog = 15 * time.Millisecond // expected to block on the quota lock: do not wait long for a gate
+		}
 		ns, _ := r.s.Step(st.P)
+		r.s.Watchdog = wd
 		if st.F && r.armed.Load() {
 			r.armed.Store(false)
 			return &fw.Trace{Status: fw.DriverError, Note: fmt.Sprintf("step %d: fault on %s of %s was not consumed", i, st.A, st.P)}
@@ -552,30 +626,12 @@ func drive(env *fw.Env, b fw.Behaviour) *fw.Trace {
 		if expired {
 			r.dropCodeKeys() // whatever is written to the code keys after the deadline lapses at once
 		}
-		switch ns {
-		case sched.Done:
-			logRet(st.P)
-		case sched.Parked:
-		default:
-			return unreal("step %d: %s is %s after %s", i, st.P, ns, st.A)
+		if note, ok := settle(i, st, ns); !ok {
+			return diverged("%s", note)
 		}
 	}
 	// the behaviour is a prefix: let every call still in flight run to completion, then observe
-	if !r.s.Drain(5 * time.Second) {
-		return &fw.Trace{Status: fw.DriverError, Note: "calls did not finish after drain"}
-	}
-	flushFaults()
-	for _, p := range order {
-		if !returned[p] {
-			logRet(p)
-		}
-	}
-	fe, err := r.finalEvent()
-	if err != nil {
-		return &fw.Trace{Status: fw.DriverError, Note: err.Error()}
-	}
-	t.Events = append(t.Events, fe)
-	return t
+	return finish(fw.Realised, "")
 }
 
 // driveFree: seeded free-running stress of the same calls over the same doubles (optionally through the
@@ -597,7 +653,7 @@ func driveFree(env *fw.Env, beh behaviour) *fw.Trace {
 	if beh.Seed%2 == 0 {
 		node2 = append(node2, "r")
 	}
-	r, err := newRig(true, beh.Backend, node2, ttl, beh.Pre, beh.Quota)
+	r, err := newRig(true, beh.Backend, node2, beh.SameAs, ttl, beh.Pre, beh.Quota)
 	if err != nil {
 		return &fw.Trace{Status: fw.DriverError, Note: err.Error()}
 	}
@@ -693,8 +749,10 @@ func driveFree(env *fw.Env, beh behaviour) *fw.Trace {
 		close(stopExp)
 		return &fw.Trace{Status: fw.DriverError, Note: "free-running calls did not finish"}
 	}
-	close(stopExp)
+	// the Expire event is logged in every run with a short TTL (a call may already have seen the deadline pass
+	// by its own clock reading): wait for the logger - at most the few milliseconds of the TTL
 	wgExp.Wait()
+	close(stopExp)
 	fe, err := r.finalEvent()
 	if err != nil {
 		return &fw.Trace{Status: fw.DriverError, Note: err.Error()}
@@ -715,6 +773,9 @@ type genCfg struct {
 	repaired bool
 	node2    string // TLA+ set of the processes that call through node n2 (default {"a2","r"})
 	clocal   bool   // model variant: the claim key lives in each node's local cache tier
+	same     string // TLA+ set of the activators that submit as a1's listen client (default {})
+	reclaim  bool   // model variant: idempotent re-claim by the same client
+	rig      string // "" = drive on both rigs, else only on "double" / "nodes2"
 	emit     bool
 	invs     string
 	workers  int
@@ -751,18 +812,22 @@ func (c genCfg) job() fw.TLCJob {
 	if c.node2 == "" {
 		c.node2 = `{"a2","r"}`
 	}
+	if c.same == "" {
+		c.same = `{}`
+	}
 	return fw.TLCJob{Name: c.name, Module: "ConnCode", Cfg: "ConnCode_mc.cfg", Workers: w, Timeout: c.timeout,
 		Consts: map[string]string{"ACTS": actsSet(c.acts), "REV": tf(c.rev), "EXP": tf(c.exp), "FAULT": fmt.Sprint(c.fault),
 			"PRE": c.pre, "QUOTA": fmt.Sprint(c.quota), "CLAIM": tf(c.repaired), "CRB": tf(c.repaired), "EMIT": tf(c.emit),
-			"NODE2": c.node2, "CLOCAL": tf(c.clocal),
+			"NODE2": c.node2, "CLOCAL": tf(c.clocal), "SAME": c.same, "RECLAIM": tf(c.reclaim),
 			"VIEW": view, "INVS": c.invs}}
 }
 
 const (
-	invStrict   = "AtMostOneMapping AtMostOneSuccess SuccessWasValid FailedLeavesNone FieldsOK NoLegacyDev ClaimExcludes"
+	invStrict   = "AtMostOneMapping AtMostOneSuccess SuccessWasValid FailedLeavesNone FieldsOK NoLegacyDev ClaimExcludes LockOK"
 	invRepaired = "AtMostOneMappingR AtMostOneSuccess SuccessWasValid FailedLeavesNoneR FieldsOK NoLegacyDev ClaimExcludes"
 	invAsIs     = "AtMostOneMappingD AtMostOneSuccessD SuccessWasValid FailedLeavesNoneD FieldsOK"
 	invLocal    = "AtMostOneMappingL AtMostOneSuccessL SuccessWasValid FailedLeavesNone FieldsOK"
+	invReclaim  = "AtMostOneMappingQ AtMostOneSuccessQ SuccessWasValid FailedLeavesNone FieldsOK LockOK"
 )
 
 var genTable = map[string]genCfg{}
@@ -776,12 +841,20 @@ func genJobs(tier string) []genCfg {
 		{name: "gen:expire", acts: 2, rev: true, exp: true, pre: p1, quota: 2, repaired: true},
 		{name: "gen:expfault", acts: 1, exp: true, fault: 1, pre: `{}`, quota: 2, repaired: true},
 		{name: "gen:quota", acts: 2, pre: `{"a2"}`, quota: 1, repaired: true},
+		// the SAME listen client submits twice (a1, a2) while a third client (a3) races: on one node the second
+		// submit waits on the per-client quota lock; through two nodes the two submits interleave freely
+		{name: "gen:twin1", acts: 3, pre: `{}`, quota: 3, repaired: true, same: `{"a2"}`, node2: `{}`, rig: "double"},
+		{name: "gen:twin2", acts: 3, pre: `{}`, quota: 3, repaired: true, same: `{"a2"}`, node2: `{"a2"}`, rig: "nodes2"},
+		{name: "gen:twinfault", acts: 2, fault: 1, pre: `{}`, quota: 3, repaired: true, same: `{"a2"}`, node2: `{}`, rig: "double"},
 		// the code as it was before the repair: read-check-create-update without a claim
 		{name: "legacy:race", acts: 2, rev: true, pre: p1, quota: 2},
 		{name: "legacy:fault", acts: 1, fault: 1, pre: `{}`, quota: 2},
 		// a design whose claim key is node-local (each node's SetNX wins in its own cache): two nodes both
 		// activate. Unrealisable while the real hybrid routes the real claim key to the shared tier.
-		{name: "legacy:localclaim", acts: 2, pre: `{}`, quota: 2, repaired: true, clocal: true, node2: `{"a2"}`},
+		{name: "legacy:localclaim", acts: 2, pre: `{}`, quota: 2, repaired: true, clocal: true, node2: `{"a2"}`, rig: "nodes2"},
+		// a design with "idempotent re-claim" (a lost SetNX counts as won when the key holds the caller's client id):
+		// the same client's second submit succeeds too. Unrealisable while the code refuses every lost claim.
+		{name: "legacy:reclaim", acts: 2, pre: `{}`, quota: 3, repaired: true, same: `{"a2"}`, node2: `{}`, reclaim: true, rig: "double"},
 	}
 	if tier == "thorough" {
 		jobs = append(jobs,
@@ -937,9 +1010,16 @@ func main() {
 				{name: "mc:asis:all", acts: 2, rev: true, exp: true, fault: 1, pre: p1, quota: 2, invs: invAsIs},
 				// two nodes with a node-local claim: the properties hold only modulo the deviation "localClaim"
 				{name: "mc:localclaim", acts: 2, rev: true, pre: p1, quota: 2, repaired: true, clocal: true, node2: `{"a2"}`, invs: invLocal},
+				// the same client submits twice (+ a third client, + revoker, + expiry): strict, on one node and on two
+				{name: "mc:twin:1node", acts: 3, rev: true, pre: `{}`, quota: 3, repaired: true, same: `{"a2"}`, node2: `{}`, invs: invStrict},
+				{name: "mc:twin:2nodes", acts: 3, rev: true, pre: `{}`, quota: 3, repaired: true, same: `{"a2"}`, node2: `{"a2"}`, invs: invStrict},
+				// idempotent re-claim: holds only modulo the deviation "reclaim"
+				{name: "mc:reclaim", acts: 2, rev: true, pre: `{}`, quota: 3, repaired: true, same: `{"a2"}`, node2: `{}`, reclaim: true, invs: invReclaim},
 			}
 			if env.Tier == "thorough" {
 				jobs = append(jobs,
+					genCfg{name: "mc:twin:1node:expire", acts: 3, rev: true, exp: true, pre: `{}`, quota: 3, repaired: true, same: `{"a2"}`, node2: `{}`, invs: invStrict, workers: 16},
+					genCfg{name: "mc:twin:2nodes:expire+fault", acts: 3, rev: true, exp: true, fault: 1, pre: `{}`, quota: 3, repaired: true, same: `{"a2"}`, node2: `{"a2"}`, invs: invRepaired + " LockOK", workers: 16, timeout: 20 * time.Minute},
 					genCfg{name: "mc:repaired:3act:race+revoke+expire", acts: 3, rev: true, exp: true, pre: p1, quota: 2, repaired: true, invs: invStrict, workers: 16},
 					genCfg{name: "mc:repaired:3act:all", acts: 3, rev: true, exp: true, fault: 1, pre: p1, quota: 2, repaired: true, invs: invRepaired, workers: 16, timeout: 20 * time.Minute},
 					genCfg{name: "mc:asis:3act:all", acts: 3, rev: true, exp: true, fault: 1, pre: p1, quota: 2, invs: invAsIs, workers: 16, timeout: 20 * time.Minute},
@@ -973,56 +1053,25 @@ func main() {
 			var node2 []string
 			_ = json.Unmarshal([]byte("["+strings.Trim(n2, "{}")+"]"), &node2)
 			legacy := strings.HasPrefix(src, "legacy")
-			one := fw.MustJSON(behaviour{Steps: steps, Legacy: legacy, Pre: pre, Quota: c.quota, Backend: "double"})
-			two := fw.MustJSON(behaviour{Steps: steps, Legacy: legacy, Pre: pre, Quota: c.quota, Backend: "nodes2", Node2: node2})
+			var same []string
+			if c.same != "" {
+				_ = json.Unmarshal([]byte("["+strings.Trim(c.same, "{}")+"]"), &same)
+			}
+			one := fw.MustJSON(behaviour{Steps: steps, Legacy: legacy, Pre: pre, Quota: c.quota, Backend: "double", SameAs: same})
+			two := fw.MustJSON(behaviour{Steps: steps, Legacy: legacy, Pre: pre, Quota: c.quota, Backend: "nodes2", Node2: node2, SameAs: same})
 			switch {
-			case c.clocal:
-				return []json.RawMessage{two} // a node-local claim only differs from a shared one on two nodes
-			case legacy:
+			case c.rig == "nodes2":
+				return []json.RawMessage{two} // the model's node assignment matters (node-local claim, per-node quota lock)
+			case c.rig == "double" || legacy:
 				return []json.RawMessage{one}
 			}
 			return []json.RawMessage{one, two} // the same interleaving on one store and through two nodes
 		},
-		// fail safe: when the primary (non-legacy) behaviours stop being realisable the model no longer
-		// describes the code that runs - that is never "OK"
-		PostDrive: func(env *fw.Env, traces []*fw.Trace) error {
-			type cnt struct{ real, tot int }
-			by := map[string]*cnt{}
-			all := &cnt{}
-			for _, t := range traces {
-				if strings.HasPrefix(t.Beh.Src, "legacy") || t.Beh.Src == "extra" || (t.Status != fw.Realised && t.Status != fw.Unrealisable) {
-					continue
-				}
-				var b behaviour
-				if json.Unmarshal(t.Beh.Data, &b) != nil || b.Legacy {
-					continue
-				}
-				k := t.Beh.Src + "/" + b.Backend
-				if by[k] == nil {
-					by[k] = &cnt{}
-				}
-				for _, c := range []*cnt{by[k], all} {
-					c.tot++
-					if t.Status == fw.Realised {
-						c.real++
-					}
-				}
-			}
-			keys := make([]string, 0, len(by))
-			for k := range by {
-				keys = append(keys, k)
-			}
-			sort.Strings(keys)
-			for _, k := range keys {
-				if c := by[k]; c.tot >= 20 && 2*c.real < c.tot {
-					return fmt.Errorf("model no longer matches the code: only %d%% of the behaviours of %s are realisable (%d of %d)", 100*c.real/c.tot, k, c.real, c.tot)
-				}
-			}
-			if all.tot >= 20 && 2*all.real < all.tot {
-				return fmt.Errorf("model no longer matches the code: only %d%% of the primary behaviours are realisable (%d of %d)", 100*all.real/all.tot, all.real, all.tot)
-			}
-			return nil
-		},
+		// fail safe: a behaviour the code leaves part-way is finished free-running and judged (fw.Diverged); when fewer
+		// than 3/4 of a primary source's behaviours follow the model to the end the framework ends with exit 2 after
+		// the verdict ("the model no longer matches the code") - never OK. 3/4 because every source is driven on two
+		// rigs: one rig going completely off-model must trip the guard too.
+		RealisableFloor: 0.75,
 		ExtraBeh: func(env *fw.Env) []json.RawMessage {
 			n := 60
 			if env.Tier == "thorough" {
@@ -1031,6 +1080,9 @@ func main() {
 			var out []json.RawMessage
 			for i := 0; i < n; i++ {
 				b := behaviour{Free: true, Backend: []string{"double", "nodes2", "hybrid", "nodes2"}[i%4], Procs: 3 + i%2, Rev: i%3 == 0, Seed: i, Quota: 50}
+				if i%7 >= 4 {
+					b.SameAs = []string{"a2"} // a2 submits with a1's listen client (double submit)
+				}
 				switch i % 5 {
 				case 1, 2:
 					b.Fault = 1 + (i/5)%24
